@@ -102,7 +102,7 @@ def _(E, m, a, c0):
 @pfirst(r'<(?:std::str::)?(Chars|Bytes|CharIndices)(?:<.*>)? as IntoIterator>::into_iter')
 def _(E, m, a, c0): return a[0]
 # Peekable<Chars>: a cursor Adt('PeekChars', None, [Seq chars, python index])
-@pfirst(r'<(?:std::iter::)?Peekable<.*Chars.*> as Iterator>::next')
+@pfirst(r'<(?:std::iter::)?Peekable<.*> as Iterator>::next')
 def _(E, m, a, c0):
     p = E.deref(a[0]); chars, idx = p.fields
     if idx >= len(chars.fields): return opt()
